@@ -6,6 +6,8 @@ import CodeLimit.Model.CacheBytes
 import CodeLimit.Props.C08
 import CodeLimit.Props.C10
 import CodeLimit.Props.C07
+import CodeLimit.Props.C18
+import CodeLimit.Spec.GapsRender
 /-!
 # Gaps named by the coverage map (notes/coverage.md, 2.4): statements that tie modelled Python
 # functions to the property theorems
@@ -25,6 +27,13 @@ Part 3 - what `check` prints (`CheckResult.report`, `CheckResult.add`, `utils.fo
 Part 4 - `Scanner._read_file`: every byte string is decoded to some text (UTF-8 when well-formed,
          else Latin-1), the decoder is exactly well-formed UTF-8, the text has no carriage return
          and no surrogate (the assumptions of C16 and C08), `scan` and `check` read the same text.
+
+Part 5 - `report_command` / `findings_command` on a written report: what `read_report` hands on is
+         rendered with the stored numbers (composition of parts 1-2, C08 and C18).
+
+Reading aids (restate a model definition by unfolding; kept for orientation, not properties):
+`read_file_total`, `line_fields`, `one_line_per_listed_function`, `lines_file_by_file`,
+`printedPathStr_eq`, `read_report_missing`, the last conjunct of `damaged_not_reusable`.
 
 Models: `Model/CacheDoc.lean`, `Model/CheckPrint.lean`, `Model/Decode.lean`; vocabulary:
 `Spec/GapsDoc.lean`, `Spec/GapsPrint.lean`, `Spec/GapsDecode.lean`.  `cur` is `Report.VERSION`,
@@ -87,7 +96,7 @@ theorem read_report_written (cur : Str) (buildOk : List Str → Bool) (d : Repor
     rw [C08.toJsonDict_eq d hk, fromJsonU_toJson buildOk d hk.files hb]
     simp [this]
 
-/-- a missing file: "No cached report found, run scan first" -/
+/-- READING AID (`rfl`): a missing file: "No cached report found, run scan first" -/
 theorem read_report_missing (cur : Str) (buildOk : List Str → Bool) :
     readReportDoc cur buildOk none = .noReport := rfl
 
@@ -282,6 +291,15 @@ theorem typed_reader_not_complete :
     (readCachedDoc (cp! "1") (fun _ => true) (some doc)).isSome = true := by
   constructor <;> decide +kernel
 
+/-- `typed_reader_sound` applies to the hostile sample report of C08 (surrogates, quotes, control
+characters): Python's reader accepts the document the typed reader accepts, finds it well-formed,
+and returns the same uuid and root -/
+example : ∃ u, fromJsonU (fun _ => true) (toJson C08.sample) = .ok u ∧ u.wellFormed = true ∧
+    u.uuid = .str C08.sample.uuid ∧ u.root = .str C08.sample.root := by
+  have h := C08.read_back (fun _ => ([], [])) (fun _ => []) [] C08.sample C08.sample_distinct.files
+  obtain ⟨u, h1, h2, _, _, h5, h6⟩ := typed_reader_sound _ _ _ (fun _ => true) _ _ h rfl
+  exact ⟨u, h1, h2, h5, h6⟩
+
 /-! ## the abstraction function -/
 
 /-- **The abstraction commutes with reading**: what the abstract `_read_cached_report` of
@@ -371,7 +389,9 @@ theorem reusable_iff (cur : Str) (buildOk : List Str → Bool) (file : Option St
 truncated, garbage), a JSON value the reader does not accept (wrong top-level type, a missing
 key, a value of the wrong shape: `reader_accepts_iff`), and a document with an ill-typed entry
 (`wellFormed_false_iff`) all give "no cache", and are classified `missing` / `junk unreadable` /
-`junk illTyped` by the abstraction. -/
+`junk illTyped` by the abstraction.  (Conjuncts 2-4 unfold `abstractCache` under the stated
+hypothesis; the last conjunct is `rfl` on the constructors of the abstract cache file - it records
+how `Cache.readCachedReport` is defined on `missing` / `junk`, the content is in `reusable_iff`.) -/
 theorem damaged_not_reusable (cur : Str) (buildOk : List Str → Bool) :
     abstractCache buildOk none = .missing ∧
     (∀ text, parseJson text = none → abstractCache buildOk (some text) = .junk .unreadable) ∧
@@ -582,8 +602,10 @@ example :
 section Part3
 open CL.Sel CL.Print
 
-/-- **One line per listed function**: `report()` prints as many measurement lines as there are
-functions in `file_list`, plus the summary line. -/
+/-- READING AID (`simp [listedLines]` on `Model/CheckPrint.lean`).  **One line per listed
+function**: `report()` prints as many measurement lines as there are functions in `file_list`, plus
+the summary line.  The statements of part 3 with content are `lines_longest_first`,
+`lengths_column_is_C02_listed`, `output_is_C02`, `printed_path_denotes`. -/
 theorem one_line_per_listed_function (cwd : List Str) (fl : List (CPath × List Measurement)) :
     (listedLines cwd fl).length = (fl.map fun fm => fm.2.length).sum ∧
     (reportLines cwd fl).length = (fl.map fun fm => fm.2.length).sum + 1 := by
@@ -591,7 +613,7 @@ theorem one_line_per_listed_function (cwd : List Str) (fl : List (CPath × List 
     simp [listedLines, List.length_flatMap]
   exact ⟨h, by simp [reportLines, h]⟩
 
-/-- **File by file, in the order of `file_list`**: the lines of a file list that is split in two
+/-- READING AID (unfolds `listedLines`).  **File by file, in the order of `file_list`**: the lines of a file list that is split in two
 are the lines of the first part followed by the lines of the second; the lines of one file are
 its functions in the order of its `risks`, all with the same printed path. -/
 theorem lines_file_by_file (cwd : List Str) (fl1 fl2 : List (CPath × List Measurement)) (f : CPath) (rs : List Measurement) :
@@ -599,8 +621,9 @@ theorem lines_file_by_file (cwd : List Str) (fl1 fl2 : List (CPath × List Measu
     listedLines cwd [(f, rs)] = rs.map (lineOf (printedPathStr cwd f)) := by
   simp [listedLines]
 
-/-- **Every line shows the function's name, start position and length, and the symbol of its
-category** (C02.emoji_of_cat: `⚠` hard-to-maintain, `✖` unmaintainable). -/
+/-- READING AID (five `rfl`s on `Model/CheckPrint.lean: lineOf`; only the last conjunct uses a
+theorem, `C02.emoji_of_cat`).  **Every line shows the function's name, start position and length,
+and the symbol of its category** (`⚠` hard-to-maintain, `✖` unmaintainable). -/
 theorem line_fields (path : Str) (m : Measurement) :
     (lineOf path m).path = path ∧ (lineOf path m).name = m.name ∧ (lineOf path m).line = m.sl ∧
     (lineOf path m).col = m.sc ∧ (lineOf path m).value = m.len ∧
@@ -682,7 +705,7 @@ theorem printed_path_denotes (cwd : List Str) (hc : Normal cwd) (f : CPath) :
     exact norm_start_relpath hc (normComps_all_plain f.comps)
   · rfl
 
-/-- the string that is printed is the string of that path -/
+/-- READING AID (`rfl` after a case split): the string that is printed is the string of that path -/
 theorem printedPathStr_eq (cwd : List Str) (f : CPath) :
     printedPathStr cwd f = if inParents cwd f then joinPath (printedPath cwd f).comps else pathStr f := by
   unfold printedPathStr printedPath
@@ -805,9 +828,12 @@ end Part3Examples
 section Part4
 open CL.Decode
 
-/-- **No decoding error escapes** (the clause of C03 about undecodable files): for EVERY list of
-bytes `_read_file` returns a text - the UTF-8 reading when the bytes are well-formed UTF-8, the
-Latin-1 reading (one code point per byte, always defined) otherwise - with universal newlines. -/
+/-- READING AID (definitional: this is `Decode.readFile` unfolded, proved by `cases; rfl`).  That no
+decoding error escapes holds BY CONSTRUCTION of the model: `Decode.readFile : Bytes → Str` is a
+total function because the Python code catches `UnicodeDecodeError` and the Latin-1 codec is
+defined on every byte; this is tied to the code by the correspondence run, not proved here.  The
+statements with content are `read_file_spec` (what the text is, in terms of the UTF-8 ENCODING,
+without the decoder), `utf8_accepts_iff`, `read_file_no_cr`, `read_file_good`. -/
 theorem read_file_total (bs : Bytes) :
     (∃ s, utf8Decode bs = some s ∧ Decode.readFile bs = univNl s) ∨
     (utf8Decode bs = none ∧ Decode.readFile bs = univNl bs) := by
@@ -827,6 +853,32 @@ theorem utf8_accepts_iff (bs : Bytes) (s : Str) :
     exact ⟨utf8Decode_scalar bs s h, (utf8Encode_decode bs s h).symm⟩
   · rintro ⟨hs, rfl⟩
     exact utf8Decode_encode s hs
+
+/-- **What `_read_file` returns, without mentioning the decoder**: if the bytes are the UTF-8
+encoding of a sequence `s` of Unicode scalar values (there is at most one such `s`:
+`utf8_accepts_iff`), the text is `s` with universal newlines; if they are the encoding of no such
+sequence, the text is the bytes themselves read as code points (Latin-1), with universal
+newlines.  Exactly one of the two cases applies. -/
+theorem read_file_spec (bs : Bytes) :
+    (∃ s, (∀ c ∈ s, isScalar c = true) ∧ bs = utf8Encode s ∧ Decode.readFile bs = univNl s) ∨
+    ((¬ ∃ s, (∀ c ∈ s, isScalar c = true) ∧ bs = utf8Encode s) ∧ Decode.readFile bs = univNl bs) := by
+  rcases read_file_total bs with ⟨s, hs, hr⟩ | ⟨hn, hr⟩
+  · exact Or.inl ⟨s, ((utf8_accepts_iff bs s).1 hs).1, ((utf8_accepts_iff bs s).1 hs).2, hr⟩
+  · refine Or.inr ⟨?_, hr⟩
+    rintro ⟨s, hs, he⟩
+    rw [(utf8_accepts_iff bs s).2 ⟨hs, he⟩] at hn
+    cases hn
+
+/-- the two cases as rewriting rules -/
+theorem read_file_utf8 (s : Str) (hs : ∀ c ∈ s, isScalar c = true) :
+    Decode.readFile (utf8Encode s) = univNl s := by
+  simp [Decode.readFile, (utf8_accepts_iff (utf8Encode s) s).2 ⟨hs, rfl⟩]
+
+theorem read_file_latin1 (bs : Bytes) (h : ¬ ∃ s, (∀ c ∈ s, isScalar c = true) ∧ bs = utf8Encode s) :
+    Decode.readFile bs = univNl bs := by
+  rcases read_file_spec bs with ⟨s, hs, he, _⟩ | ⟨_, hr⟩
+  · exact absurd ⟨s, hs, he⟩ h
+  · exact hr
 
 /-- **The text has no carriage return** - the assumption of C16 (DESIGN Appendix A: "texts
 contain no carriage return") holds for every text that reaches the lexer. -/
@@ -872,14 +924,66 @@ theorem read_file_goodStr (bs : Bytes) (hb : IsBytes bs) : Json.GoodStr (Decode.
 theorem read_file_ascii (bs : Bytes) (h : ∀ b ∈ bs, b < 128) (hcr : 13 ∉ bs) : Decode.readFile bs = bs := by
   simp [Decode.readFile, utf8Decode_ascii h, univNl_id hcr]
 
+/-- the oracle record with its `decode` parameter replaced by an arbitrary decoder -/
+def withDecode (O : Sel.Oracles) (d : Str → Str) : Sel.Oracles := { O with decode := d }
+
+/-- **what `scan` and `check` hand to the analysis, with the two call sites kept apart.**
+`Scanner.py` reads a file in two places: `_analyze_file` (scan) and `check_file` (check).  The
+model has ONE `decode` field in `Sel.Oracles`, so that both use the same function is built into
+it; to make the dependence visible the two are given SEPARATE decoders here (`dScan`, `dCheck`;
+the oracle records differ in nothing else).  Then: `scan`'s entry is built from the analysis of
+`dScan content`, `check`'s listing from the analysis of `dCheck content`. -/
+theorem scan_check_two_decoders (O : Sel.Oracles) (dScan dCheck : Str → Str) (rel : Str) (checksum : Str)
+    (lang : Nat) (content : Str) (path : Sel.CPath) (st : Sel.CheckSt)
+    (hl : O.langOf (path.comps.getLastD []) = some lang) :
+    (Sel.analyzeFile (withDecode O dScan) rel checksum lang content =
+      (O.analyze lang (dScan content)).map fun ms => ⟨rel, checksum, lang, (ms.map (·.len)).foldl (· + ·) 0, ms⟩) ∧
+    (Sel.checkFile (withDecode O dCheck) path content st =
+      match O.analyze lang (dCheck content) with
+      | .error e => ({ st with analysed := st.analysed ++ [path] }, some e)
+      | .ok ms => ({ analysed := st.analysed ++ [path], fileList := st.fileList ++ [(path, Sel.risksOf ms)] }, none)) := by
+  constructor
+  · simp only [Sel.analyzeFile, withDecode]
+    cases O.analyze lang (dScan content) <;> rfl
+  · simp only [Sel.checkFile, withDecode, hl]
+    cases O.analyze lang (dCheck content) <;> rfl
+
+/-- **`scan` and `check` agree on a file whenever the two decoders agree on its bytes** (the clause
+of C12 about "the same text decoding"): if `scan`'s entry for the file holds the measurements `ms`
+then `check` lists `risksOf ms` for it, and if the analysis raises for `scan` it raises the same
+exception for `check`.  (`analyzeFile` always returns one of these two shapes, so this determines
+what `check` does.)  Without `hsame` this fails: `same_decoding_needed`. -/
+theorem scan_check_agree_of_same_decoding (O : Sel.Oracles) (dScan dCheck : Str → Str) (rel : Str)
+    (checksum : Str) (lang : Nat) (content : Str) (path : Sel.CPath) (st : Sel.CheckSt)
+    (hl : O.langOf (path.comps.getLastD []) = some lang) (hsame : dScan content = dCheck content) :
+    (∀ ms, Sel.analyzeFile (withDecode O dScan) rel checksum lang content =
+        .ok ⟨rel, checksum, lang, (ms.map (·.len)).foldl (· + ·) 0, ms⟩ →
+      Sel.checkFile (withDecode O dCheck) path content st =
+        ({ analysed := st.analysed ++ [path], fileList := st.fileList ++ [(path, Sel.risksOf ms)] }, none)) ∧
+    (∀ e, Sel.analyzeFile (withDecode O dScan) rel checksum lang content = .error e →
+      Sel.checkFile (withDecode O dCheck) path content st =
+        ({ st with analysed := st.analysed ++ [path] }, some e)) := by
+  obtain ⟨h1, h2⟩ := scan_check_two_decoders O dScan dCheck rel checksum lang content path st hl
+  rw [h1, h2, hsame]
+  cases O.analyze lang (dCheck content) with
+  | error e' =>
+    refine ⟨fun ms h => (by cases h), fun e h => ?_⟩
+    cases h; rfl
+  | ok ms' =>
+    refine ⟨fun ms h => ?_, fun e h => (by cases h)⟩
+    simp only [Except.map, Except.ok.injEq, Sel.FileEntry.mk.injEq, true_and] at h
+    rw [h.2]
+
 /-- the oracle record of `Model/Select.lean` with its `decode` parameter replaced by the model
 of `_read_file` -/
-def withReadFile (O : Sel.Oracles) : Sel.Oracles := { O with decode := Decode.readFile }
+def withReadFile (O : Sel.Oracles) : Sel.Oracles := withDecode O Decode.readFile
 
-/-- **`scan` and `check` decode the same bytes to the same text** (the clause of C12 about "the
-same text decoding"; defect F14 was a `check` without the Latin-1 fallback): both hand
-`readFile content` to the analysis, so for the same bytes of a file with a supported language
-`scan`'s entry holds the measurements `ms` iff `check` lists `risksOf ms`. -/
+/-- the instance the code implements since the repair of F14: both call sites use `_read_file`.
+NOTE: in the model this is true BY CONSTRUCTION (one `decode` field serves `analyzeFile` and
+`checkFile`; each conjunct is `rfl` after a case split) - the content is
+`scan_check_agree_of_same_decoding`, and that the two Python call sites really call the same
+function is checked by the correspondence run of C12 (Latin-1 files are regression inputs of F14),
+not proved. -/
 theorem scan_check_same_text (O : Sel.Oracles) (rel : Str) (checksum : Str) (lang : Nat) (content : Str)
     (path : Sel.CPath) (st : Sel.CheckSt) (hl : O.langOf (path.comps.getLastD []) = some lang) :
     (Sel.analyzeFile (withReadFile O) rel checksum lang content =
@@ -887,12 +991,32 @@ theorem scan_check_same_text (O : Sel.Oracles) (rel : Str) (checksum : Str) (lan
     (Sel.checkFile (withReadFile O) path content st =
       match O.analyze lang (Decode.readFile content) with
       | .error e => ({ st with analysed := st.analysed ++ [path] }, some e)
-      | .ok ms => ({ analysed := st.analysed ++ [path], fileList := st.fileList ++ [(path, Sel.risksOf ms)] }, none)) := by
-  constructor
-  · simp only [Sel.analyzeFile, withReadFile]
-    cases O.analyze lang (Decode.readFile content) <;> rfl
-  · simp only [Sel.checkFile, withReadFile, hl]
-    cases O.analyze lang (Decode.readFile content) <;> rfl
+      | .ok ms => ({ analysed := st.analysed ++ [path], fileList := st.fileList ++ [(path, Sel.risksOf ms)] }, none)) :=
+  scan_check_two_decoders O Decode.readFile Decode.readFile rel checksum lang content path st hl
+
+/-- a strict decoder in the place of `check`'s (what `check` had before F14, with "raises" rendered
+as "no text": the model's `decode` cannot raise) -/
+def strictOrEmpty (bs : Bytes) : Str := match utf8Decode bs with | some s => univNl s | none => []
+
+/-- an analysis that reports one function whose length is the length of the text -/
+def lenOracle : Sel.Oracles where
+  excluded := fun _ => false
+  langOf := fun _ => some 0
+  checksum := fun c => c
+  decode := fun c => c
+  analyze := fun _ text => .ok [⟨[102], 1, 1, 1, 2, text.length⟩]
+
+/-- **the hypothesis `hsame` is needed**: on a file that is not UTF-8 (forty bytes `E9`) a `scan`
+through `_read_file` and a `check` through a strict decoder disagree - `scan` reports a function of
+length 40, `check` lists nothing for the file -/
+theorem same_decoding_needed :
+    let content : Bytes := List.replicate 40 233
+    Decode.readFile content ≠ strictOrEmpty content ∧
+    Sel.analyzeFile (withDecode lenOracle Decode.readFile) [97] [] 0 content =
+      .ok ⟨[97], [], 0, 40, [⟨[102], 1, 1, 1, 2, 40⟩]⟩ ∧
+    Sel.checkFile (withDecode lenOracle strictOrEmpty) ⟨false, [[97]]⟩ content ⟨[], []⟩ =
+      (⟨[⟨false, [[97]]⟩], [(⟨false, [[97]]⟩, [])]⟩, none) := by
+  refine ⟨by decide +kernel, by decide +kernel, by decide +kernel⟩
 
 /-- every theorem of C12 holds with the oracle replaced by the model; e.g. `check .` agrees with
 `scan` file by file when both read files through `_read_file` -/
@@ -924,5 +1048,79 @@ example : IsBytes [120, 233, 13, 10] ∧ Json.GoodStr (Decode.readFile [120, 233
   ⟨by decide, read_file_goodStr _ (by decide)⟩
 
 end Part4
+
+/-! # Part 5: `report_command` / `findings_command` on a written report
+
+`report_command` and `findings_command` call `read_report` (part 1) and hand what it returns to
+`print_report` / `print_findings` (C18).  This part composes the two for the text of a written
+report: the command proceeds exactly when the version is the tool's, the reader returns the stored
+report (C08), and the rendering theorems of C18 then speak about the STORED numbers. -/
+
+section Part5
+open CL.Render CL.C18
+
+/-- the reader's result has the stored totals and files (`upToTimestamp` only touches the
+timestamp and the repository tag) -/
+theorem rendered_inputs_stored (now : Str) (d : ReportData) :
+    renderTotals (C08.upToTimestamp now d).totals = renderTotals d.totals ∧
+    renderFiles (C08.upToTimestamp now d).files = renderFiles d.files := ⟨rfl, rfl⟩
+
+/-- every function of the stored report, as the findings listing sees it -/
+theorem mem_allUnits_renderFiles (fs : List (Str × FileData)) (u : RUnit) :
+    u ∈ allUnits (renderFiles fs) ↔ ∃ kv ∈ fs, ∃ m ∈ kv.2.measurements, u = ⟨kv.1, renderMeas m⟩ := by
+  simp only [allUnits, renderFiles, List.mem_flatMap, List.mem_map]
+  constructor
+  · rintro ⟨fm, ⟨kv, hkv, rfl⟩, m', hm', rfl⟩
+    obtain ⟨m, hm, rfl⟩ := List.mem_map.1 hm'
+    exact ⟨kv, hkv, m, hm, rfl⟩
+  · rintro ⟨kv, hkv, m, hm, rfl⟩
+    exact ⟨_, ⟨kv, hkv, rfl⟩, _, List.mem_map.2 ⟨m, hm, rfl⟩, rfl⟩
+
+/-- **`report` and `findings` on the file a writer left** (any report `d` of the kind C08 speaks
+about; the report of a scan is one: `Pipeline.scan_report_facts_on`).
+* If the report was written by another version, `read_report` refuses and nothing is rendered.
+* If it was written by the tool's version, `read_report` hands the document on, the reader returns
+  `d` (up to the reader's clock), and then: the overview has one row per STORED language, in the
+  order of `C18.languages_order`, showing the five stored figures; the totals line shows the sums of
+  the stored figures (present iff more than one language); and the findings listing (full output)
+  shows exactly the stored functions longer than 30 lines. -/
+theorem report_and_findings_of_written (cur : Str) (buildOk : List Str → Bool)
+    (build : List (Str × FileData) → List (Str × Json.Totals) × List (Str × Folder))
+    (profileOf : List Json.Meas → List Int) (now : Str) (d : ReportData) (hd : GoodReport d)
+    (hk : DistinctKeys d) (hr : C08.Reachable build profileOf d) (hb : buildOk (d.files.map (·.1)) = true)
+    (p : Bool) (L : Locale) :
+    (d.version ≠ some cur → readReportDoc cur buildOk (some (write p d)) = .mismatch) ∧
+    (d.version = some cur →
+      readReportDoc cur buildOk (some (write p d)) = .shown d.untyped ∧
+      ∃ r, (parseJson (write p d)).map (fromJson build profileOf now) = some (.ok r) ∧
+        (overviewText L (renderTotals r.totals) none).rows =
+          (languagesTotals (renderTotals d.totals)).map (fun c => c.language :: (figures c).map L.n) ∧
+        (overviewText L (renderTotals r.totals) none).footer =
+          (if d.totals.length > 1 then some ((sums (renderTotals d.totals)).map L.n) else none) ∧
+        overviewMarkdown L (renderTotals r.totals) none = overviewMarkdown L (renderTotals d.totals) none ∧
+        (∀ u, u ∈ (findingsText (renderFiles r.files) true).shown ↔
+          (∃ kv ∈ d.files, ∃ m ∈ kv.2.measurements, u = ⟨kv.1, renderMeas m⟩) ∧ u.m.value > 30) ∧
+        (findingsMarkdown (renderFiles r.files) true false).shown =
+          (findingsText (renderFiles r.files) true).shown) := by
+  refine ⟨(read_report_written cur buildOk d hd p).1, fun hv => ?_⟩
+  refine ⟨(read_report_written cur buildOk d hd p).2 hv hk hb, C08.upToTimestamp now d,
+    C08.round_trip build profileOf now d hd hk hr p, ?_, ?_, rfl, ?_, ?_⟩
+  · exact (overview_text_without_previous L _).1
+  · rw [(overview_text_without_previous L _).2]
+    simp [C08.upToTimestamp, renderTotals]
+  · intro u
+    rw [(findings_text _ true).1, if_pos rfl, mem_units_selected, (rendered_inputs_stored now d).2,
+      mem_allUnits_renderFiles]
+  · exact (findings_same_selection _ true false).1
+
+/-- non-vacuity: the hostile sample of C08, written by the tool's version, read by `findings`: the
+one function longer than 30 lines (length 70) is listed -/
+example : ∃ r, (parseJson (write true sampleCur)).map (fromJson (fun _ => (sampleCur.totals, sampleCur.tree))
+      (fun ms => if ms.length = 2 then [3, 0, 0, 70] else []) []) = some (.ok r) ∧
+    (findingsText (renderFiles r.files) true).shown.map (·.m.value) = [70] := by
+  refine ⟨_, C08.round_trip _ _ [] sampleCur sampleCur_good sampleCur_distinct
+    ⟨by decide, rfl, rfl⟩ true, by decide +kernel⟩
+
+end Part5
 
 end CL.Gaps
